@@ -20,6 +20,7 @@ CONSTANTS
   HandlerIds = {1}
   Kinds = {}
   Keys = {1}
+  BadKeys = {}
   SrcOpts <- Opts_plain
   EvKinds = {"ps", "bt", "tb"}
   MaxBatch = 2
